@@ -6,7 +6,7 @@ MODULE = {
     "obj_attrs": dict(URL_ATTRS, screen_name="Str", user_screen_name="Str"),
     "library": dict(RE_LIB),
     "functions": {
-        "is_twitter_url": {"types": {"url": "Obj"}, "returns": "Bool", "isinstance": {"url,SplitResult": False}, "ensures": []},
+        "is_twitter_url": {"types": {"url": "Obj", "hostname": "Opt[Str]"}, "returns": "Bool", "ensures": []},  # total: get_hostname swallows urlsplit's ValueError
         "normalize_screen_name": {"types": {"username": "Str"}, "returns": "Opt[Str]", "ensures": []},
         "parse_twitter_url": {
             "types": {"url": "Obj", "parsed": "Obj", "path": "Seq[Str]", "user_screen_name": "Opt[Str]"},
